@@ -43,7 +43,7 @@ def plan(tier, seed):
 
 
 def thresholds(tier):
-  t = {"contract_evaluations": 150000, "exhaustive_cases": 200000, "cells_seen": 90, "sim_contract_evaluations": 5000, "result_mutation_probes": 10000}
+  t = {"contract_evaluations": 150000, "exhaustive_cases": 200000, "cells_seen": 90, "sim_contract_evaluations": 5000, "result_mutation_probes": 10000, "hash_after_update_probes": 2000}
   if tier == "thorough":
     t.update({"contract_evaluations": 20000000, "sim_contract_evaluations": 100000})
   return t
@@ -116,6 +116,31 @@ def drive_pair_history(sh, x, a, y, b):
                     "same_object": r2 is r, "how": ["@=", "[0]=", "<<= + _flip"][how]}); return
 
 
+def drive_hash_history(sh, Bits, n, a, b):
+  """hash / equality / conversions after the SAME object changed its value in place (a cached hash, _next left behind ...)"""
+  x = Bits(n, a)
+  h0 = hash(x); d = {x: "old"}
+  for how in range(4):
+    y = Bits(n, a); hash(y); int(y)
+    try:
+      if how == 0: y @= b
+      elif how == 1:
+        y <<= b; y._flip()
+      elif how == 2:
+        for i in range(min(n, 70)): y[i] = (b >> i) & 1
+        if n > 70: y[70:n] = b >> 70
+      else: y[0:n] = b
+    except Exception as e:
+      sh.violation("in-place-update-raised", {"how": how, "n": n, "error": repr(e)[:200]}); continue
+    fresh = Bits(n, b)
+    sh.count("hash_after_update_probes")
+    if int(y) != b or y.uint() != b or not (y == fresh) or hash(y) != hash(fresh) or (a != b and hash(fresh) != h0 and hash(y) == h0):
+      sh.violation("value-or-hash-stale-after-in-place-update", {"how": ["@=", "<<= + _flip", "bit by bit", "full slice"][how], "n": n, "a": hex(a), "b": hex(b),
+                   "int": hex(int(y)), "equal_to_fresh": bool(y == fresh), "hash_equal_to_fresh": hash(y) == hash(fresh)}); return
+    if {fresh: 1}.get(y) != 1:
+      sh.violation("updated-value-not-found-as-dict-key", {"how": how, "n": n, "a": hex(a), "b": hex(b)}); return
+
+
 def drive_store(Bits, n, v):
   """constructor, @=, <<= + flip with value v (int or Bits)"""
   _try(Bits, n, v)
@@ -184,6 +209,8 @@ def run_rand(sh):
       drive_pair(x, y); done += len(OPS)
       if rng.random() < 0.25:
         drive_pair_history(sh, x, a, y, b); done += 2 * len(OPS)
+      if rng.random() < 0.15:
+        drive_hash_history(sh, Bits, n, a, b); done += 8
       sh.fp("same", n if n in WCLASSES else "other", a == 0, b == 0)
       if case <= 2:
         sh.sample({"stream": "random", "n": n, "a": hex(a), "b": hex(b), "ops": "all 16 binary operators"})
